@@ -18,7 +18,7 @@ func init() {
 		ID: "C02", Gen: genC02, Run: runC02, Quick: 1200, Thorough: 200000,
 		Real: []string{"pkg/exporter (SendSet, refresh goroutine, message builder)", "pkg/entities (set/record/message builders, value encoder, MakeTemplateSet)", "pkg/registry (incl. PutInfoElement for user-registered elements)"},
 		Stub: []string{"OS sockets (simnet)", "wall clock (synctest bubble)"},
-		Rule: "sessions over tcp/udp with templates of 1-40 elements from the whole registry plus user-registered elements, all three add paths, boundary and random values, refresh bursts, failed sends in between; every Write/datagram is parsed by oracle/ipfixref and compared with what was handed; non-trivial = at least 2 data messages on the wire; distinct = distinct event-log hash",
+		Rule: "sessions over tcp/udp with templates of 1-40 elements from the whole registry plus user-registered elements, all three add paths, boundary and random values, refresh bursts, failed sends in between; a twelfth of the plans run two exporting processes at the same time after a third was closed twice; every Write/datagram is parsed by oracle/ipfixref and compared with what was handed; non-trivial = at least 2 data messages on the wire; distinct = distinct event-log hash",
 	})
 }
 
